@@ -51,7 +51,8 @@ C02_FRAME_KINDS = [k for k in F.ALL_KINDS if k not in F.TZ_KINDS]
 def case_strategy(draw, tier):
     frame = draw(F.frame_strategy(kinds=C02_FRAME_KINDS, max_cols=3,
                                   allow_big=False))
-    cons = draw(GC.respell_dates(draw(GC.constraint_set(frame))))
+    cons = draw(GC.respell_dates(draw(GC.constraint_set(
+        frame, string_bounds=True))))
     epsilon = draw(st.sampled_from([None, 0, 0.01, 0.5]))
     reals = [c for c in frame['cols'] if c['kind'] == 'float64'
              and any(v is not None for v in c['cells'])]
@@ -162,6 +163,12 @@ def valid_constraints(cons, frame):
                     if not isinstance(b, (int, float)) or (
                             isinstance(b, float) and (math.isnan(b)
                                                       or math.isinf(b))):
+                        return False
+                elif atype == 'string' and col['kind'] in ('ostr', 'string'):
+                    if (not isinstance(b, str) or p == 'fuzzy'
+                            or fc.get('type') == 'date' or not all(
+                                isinstance(x, str)
+                                for x in F.py_values(col) if x is not None)):
                         return False
                 else:
                     return False
